@@ -98,15 +98,36 @@ def call_main(argv):
     return rc, out.getvalue(), err.getvalue()
 
 
+# file and key names are data too: blanks, per-cent signs (also as format directives), non-ASCII letters, paths relative to
+# the working directory
+NAME_STYLES = {"plain": "file{i:02d}_{k}", "percent": "100% {i:02d}_{k} %s %d%%20", "unicode": "d\u00eda \u2603 {i:02d}_{k}",
+               "braces": "{{0}} {i:02d}_{k} {{x}}", "rel": "rel{i:02d}_{k}"}
+
+
+def name_style(seed, cid):
+    return random.Random("%s|%s|names" % (seed, cid)).choice(sorted(NAME_STYLES))
+
+
 def run_loop_case(cid, c, seed, tmproot):
     g = Gamma("%s|%s" % (seed, cid))
     mode = c.get("mode", "files")
     d = tempfile.mkdtemp(prefix="cli-", dir=tmproot)
+    style = name_style(seed, cid)
+    fmt = NAME_STYLES[style]
+    cwd = os.getcwd()
     try:
         names = []
         if mode == "files":
+            base = d
+            if style == "rel":
+                os.chdir(d)
+                base = "."
+            elif style != "plain":
+                base = os.path.join(d, "sub dir")
+                os.mkdir(base)
             for i, f in enumerate(c["files"]):
-                p = os.path.join(d, "file%02d_%s.mos.xml" % (i, f["kind"]))
+                p = os.path.join(base, fmt.format(i=i, k=f["kind"]) + ".mos.xml") if base != "." else \
+                    fmt.format(i=i, k=f["kind"]) + ".mos.xml"
                 if f["kind"] == "dir":
                     os.mkdir(p)
                 elif f["kind"] != "missing":
@@ -119,7 +140,7 @@ def run_loop_case(cid, c, seed, tmproot):
             sfx = ".mos.xml" if mode != "bucket_prefix_suffix" else ".xml"
             bucket = {"zzz/unrelated.mos.xml": b"<mos/>", "pre/notes.txt": b"not a mos file"}
             for i, f in enumerate(c["files"]):
-                key = "pre/file%02d_%s%s" % (i, f["kind"], sfx)
+                key = "pre/" + fmt.format(i=i, k=f["kind"]) + sfx
                 bucket[key] = file_text(f, g).encode("utf-8")
                 names.append(key)
             collection.install_fake_s3(collection.FakeS3({"bkt": bucket}, page_size=1))
@@ -148,8 +169,9 @@ def run_loop_case(cid, c, seed, tmproot):
         return {"id": cid, "cmd": c["cmd"], "mode": mode, "files": c["files"], "seen": seen, "order_ok": order_ok,
                 "rc": rc if isinstance(rc, int) else 99, "aborted": rc == 2 and "mosromgr error" in err,
                 "stderr_nonempty": any(ln.strip() for ln in elines),
-                "stderr_tail": err[-300:], "stdout_head": out[:300].replace(d, "<tmp>")}
+                "names": style, "stderr_tail": err[-300:], "stdout_head": out[:300].replace(d, "<tmp>")}
     finally:
+        os.chdir(cwd)
         shutil.rmtree(d, ignore_errors=True)
 
 
@@ -162,8 +184,15 @@ def run_merge_case(cid, c, want_rc, seed, tmproot):
         order = list(range(len(texts)))
         random.Random("%s|%s" % (seed, cid)).shuffle(order)
         paths = []
+        style = name_style(seed, cid)
+        base = d
+        if style not in ("plain", "rel"):
+            base = os.path.join(d, "sub dir")
+            os.mkdir(base)
+        # names whose alphabetical order is the reverse of the order of the arguments
+        stem = lambda n: NAME_STYLES[style].format(i=99 - n, k="in")
         for n, i in enumerate(order):
-            p = os.path.join(d, "in%02d.mos.xml" % n)
+            p = os.path.join(base, stem(n) + ".mos.xml")
             with open(p, "w", encoding="utf-8") as fh:
                 fh.write(texts[i])
             paths.append(p)
@@ -171,7 +200,10 @@ def run_merge_case(cid, c, want_rc, seed, tmproot):
         try:
             with warnings.catch_warnings():
                 warnings.simplefilter("ignore")
-                mc = MosCollection.from_files(paths, allow_incomplete=c["allow"])
+                # a bucket listing is in key order: that is the order of supply the library sees there
+                mode0 = c.get("mode", "files")
+                lib_paths = paths if mode0 == "files" else sorted(paths, key=os.path.basename)
+                mc = MosCollection.from_files(lib_paths, allow_incomplete=c["allow"])
                 mc.merge(strict=not c["nonstrict"])
                 want_text = str(mc)
         except Exception:  # noqa: BLE001
@@ -186,7 +218,7 @@ def run_merge_case(cid, c, want_rc, seed, tmproot):
             if mode != "bucket_only":
                 bucket["zzz/unrelated%s" % sfx] = b"<mos><messageID>1</messageID><roCreate><roID>X</roID></roCreate></mos>"
             for n, i in enumerate(order):
-                bucket["%sin%02d%s" % (pre, n, sfx)] = texts[i].encode("utf-8")
+                bucket["%s%s%s" % (pre, stem(n), sfx)] = texts[i].encode("utf-8")
             bucket["%snotes.txt" % pre] = b"not a mos file"
             collection.install_fake_s3(collection.FakeS3({"bkt": bucket}, page_size=2))
             argv = ["merge"] + ([] if mode == "none" else ["-b", "bkt"])
